@@ -477,7 +477,8 @@ def run_c10(ctx):
     # copies of one named sub-proposition whose children are spelled differently (bare ids / variable objects, mixed within a node)
     a_, b_, c_, d_ = LEAF("a"), LEAF("b"), LEAF("c"), LEAF("d")
     for G in (_R("Any", a_, b_, id="G"), _R("All", a_, b_, c_, id="G"), _R("AtLeast", b_, c_, v=1, s=1, id="G"), _R("Xor", a_, b_, id="G"), _R("Any", a_, LEAF("t", -1, 2), b_, id="G")):
-        for top in (_R("All", _R("Any", G, c_, id="P"), _R("Any", G, d_, id="Q"), id="T"), _R("Any", _R("All", G, d_, id="P"), G, id="T"), _R("Imply", _R("All", G, c_), _R("Any", G, d_), id="T")):
+        for top in (_R("All", _R("Any", G, c_, id="P"), _R("Any", G, d_, id="Q"), id="T"), _R("Any", _R("All", G, d_, id="P"), G, id="T"), _R("Imply", _R("All", G, c_), _R("Any", G, d_), id="T"),
+                    _R("AtLeast", _R("AtMost", G, a_, v=1, id="P"), _R("All", b_, G, id="Q"), v=1, s=1, id="T")):
             cases.append({"recipe": copy.deepcopy(top), "src": "handmade", "style": 4})
     for k, c in enumerate(cases):
         if k % 3 == 2 and "style" not in c: c["style"] = 4
